@@ -41,6 +41,10 @@ def handle (op : String) (args : List String) : Option String :=
   | "forms.prods", [] => some formsProds
   | "forms.paths", [] => some formsPaths
   | "forms.omissions", [] => some formsOmissions
+  | "forms.unreachable", [] => some (
+      let l := AcraModel.Sql.Forms.paths.filter fun π => !(AcraModel.Sql.Forms.prods.any fun p => AcraModel.Sql.Forms.compatible p π)
+      if l.isEmpty then "-" else " ".intercalate (l.map fun π => s!"{π.kind}/{π.idx}"))
+  | "forms.strictkinds", [] => some (" ".intercalate AcraModel.Sql.Forms.strictKinds)
   | "forms.tableok", [] => some (if AcraModel.Sql.Forms.tableOK then "true" else "false")
   | "forms.path", kind :: present => some (match AcraModel.Sql.Forms.formatPath ⟨kind, present, []⟩ with
       | some π => toString π.idx
